@@ -33,6 +33,13 @@ CLAIMED["C01"] = dict(
     note="For C-coded serializers the content dimension is a fixed corpus (sampled); only chunking/receive path/size hint is decided by the solver.",
 )
 
+CLAIMED["C06"] = dict(
+    text="Bounded symbolic execution: (a) every stream / datagram of N symbolic bytes through the real scanners, consumers, protocols and base classes yields only packets, StopIteration or protocol parse errors, an error-skipping loop terminates (each error consumes >= 1 byte), and no call hangs (wall-clock watchdog on symbolic paths + concrete hang confirmation); (b) error-mapping totality around the C decoders (json, pickle, zlib, bz2, base64): the decode call raises a solver-chosen class of the library's observable exception set and must surface as a parse error; every such path is confirmed with real bytes that make the real library raise that class.",
+    design="4/C06",
+    technique="symbolic execution of real code (CrossHair+z3) over arbitrary input bytes; exception-class choice as a solver variable with real-input witnesses",
+    note="(b) assumes the listed exception sets of the C decoders; MemoryError and decoder crashes are outside.",
+)
+
 NOT_APPLICABLE = {
     "C08": "TLS byte-transparency/encryption is decided inside OpenSSL's record layer (C code, cryptography): it cannot be executed symbolically by any installed engine; stubbing it would verify the stub, and running real OpenSSL realises every symbolic size (degenerates to concrete enumeration). See DESIGN.md section 5.",
     "C09": "Whether a cut at a byte offset of a real ciphertext stream yields SSLEOFError / SSLZeroReturnError / a protocol error is OpenSSL's partial-record parsing, not encodable; the EasyNetwork part is a three-way exception mapping. See DESIGN.md section 5.",
